@@ -1,2 +1,10 @@
 #!/bin/sh
-exit 0
+# MANIFEST.setup_cmd: builds the gosx engine (bin/gosx is not committed) from
+# /verif/engine with the Go toolchain /repo's go.mod requires; offline.
+set -e
+D="$(cd "$(dirname "$0")/.." && pwd)"
+"$D/bin/build.sh"
+test -x "$D/bin/gosx"
+mkdir -p "$D/evidence" "$D/replays"
+command -v z3 >/dev/null || { echo "setup: z3 not on PATH" >&2; exit 1; }
+echo "setup: ok ($("$D/bin/gosx" version 2>/dev/null || echo gosx built))"
